@@ -168,22 +168,22 @@ func App(sort Sort, f string, args ...Term) Term {
 	return Term{sb.String(), sort}
 }
 
-func Add(a, b Term) Term {
-	// x+0 / 0+x / x-0 are written x: arithmetic inside a term keeps E-matching from using it as a trigger
-	// (`string(b[0:j])` under a quantifier must meet the code's `string(b[0:i])` syntactically)
+func Add(a, b Term) Term { return App(a.Sort, "+", a, b) }
+func Sub(a, b Term) Term { return App(a.Sort, "-", a, b) }
+
+// Add0 / Sub0 write x+0 and x-0 as x: arithmetic inside a term keeps E-matching from using it as a trigger
+// (`string(b[0:j])` under a quantifier must meet the code's `string(b[0:i])` syntactically). Used where slices are cut.
+func Add0(a, b Term) Term {
 	if a.Sort == SInt && b.S == "0" {
 		return a
 	}
-	if a.Sort == SInt && a.S == "0" && b.Sort == SInt {
-		return b
-	}
-	return App(a.Sort, "+", a, b)
+	return Add(a, b)
 }
-func Sub(a, b Term) Term {
+func Sub0(a, b Term) Term {
 	if a.Sort == SInt && b.S == "0" {
 		return a
 	}
-	return App(a.Sort, "-", a, b)
+	return Sub(a, b)
 }
 func Le(a, b Term) Term  { return App(SBool, "<=", a, b) }
 func Lt(a, b Term) Term  { return App(SBool, "<", a, b) }
